@@ -80,9 +80,19 @@ func genStream(g *simrt.Choices, maxLine int) []byte {
 		case 0:
 			l = ""
 		case 1:
-			l = strings.Repeat("x", 1+g.Intn(maxLine)) + fmt.Sprintf(" %d %d", i, 1500000000+i)
-			if len(l) > maxLine {
-				l = l[:maxLine]
+			// a long line; when maxLine is the documented limit of the transport, often exactly at or just below it
+			n := 1 + g.Intn(maxLine)
+			if g.Bool(0.35) {
+				n = maxLine - g.Intn(3)
+			}
+			suffix := fmt.Sprintf(" %d %d", i, 1500000000+i)
+			if n > len(suffix) {
+				l = strings.Repeat("x", n-len(suffix)) + suffix
+			} else {
+				l = strings.Repeat("x", n)
+			}
+			if g.Bool(0.3) && n < maxLine {
+				l += "\r" // CRLF-terminated: the carriage return is not part of the line
 			}
 		case 2:
 			l = fmt.Sprintf("a.b%d 1 2\r", i) // CR inside CRLF
@@ -114,10 +124,15 @@ func scenC12(x *Exec) {
 		kind := []string{"tcp", "tcp", "tcp", "udp", "amqp"}[g.Pick(5)]
 		max := 200
 		if g.Bool(0.15) {
-			max = 60000
+			// the supported limits: a TCP line of 65534 bytes still fits bufio.Scanner's 64 KiB token buffer together with
+			// its CRLF, an AMQP line of 4096 bytes is the documented maximum there
+			max = 65534
 		}
-		if kind == "amqp" && max > 4000 {
-			max = 4000
+		if kind == "amqp" && max > 4096 {
+			max = 4096
+		}
+		if kind == "udp" && max > 60000 {
+			max = 60000
 		}
 		if kind == "udp" && max > 200 && p.Net.SockBuf < 100 {
 			max = 200
@@ -152,6 +167,7 @@ func scenC12(x *Exec) {
 	}
 	x.Out.Sample = p
 	cfg0.Horizon = time.Hour
+	cfg0.MaxSteps = 4000000 // a 64 KiB line delivered one byte at a time is a few hundred thousand steps
 	prop := "C12"
 
 	s := x.Bubble(cfg0, func(s *simrt.Sim) {
